@@ -136,7 +136,15 @@ def c_map_history(ctx, args):
     return None
 
 
-CHECKS = {'compose_corr': c_compose_corr, 'inverse_corr': c_inverse_corr, 'z2inv_corr': c_z2inv_corr, 'group_laws': c_group_laws,
+def c_obj_history(ctx, args):
+    """ONE long-lived map or state (numpy or torch): queries interleaved with in-place updates -- rotations, masked updates, sign changes, embed into a block-diagonal map --
+    and with in-place updates of the RESULTS the queries returned; every query equals the same query on a freshly built equal object, and no result changes afterwards"""
+    from vlib import history
+    kind, n, seed, steps, which, be = args
+    return history.reused_object_history(ctx, kind, n, seed, steps, which, be=be)
+
+
+CHECKS = {'obj_history': c_obj_history, 'compose_corr': c_compose_corr, 'inverse_corr': c_inverse_corr, 'z2inv_corr': c_z2inv_corr, 'group_laws': c_group_laws,
           'z2inv_oracle': c_z2inv_oracle, 'map_history': c_map_history}
 
 
@@ -182,6 +190,9 @@ def run(ctx):
         do(ctx, 'group_laws', [be, a, b, c, gen.rplist(rng, N, 3)])
         ctx.res.count('N%d' % N)
     # histories on one reused object (lazily cached results must follow in-place updates)
+    for it in range(int(40 * B)):
+        be = ['np', 'torch'][it % 2]
+        do(ctx, 'obj_history', ['map', rng.randint(1, 4), rng.randrange(10 ** 6), rng.randint(4, 12), ['inverse', 'compose', 'copy'], be], nontrivial=('oh', be, it))
     for _ in range(int(60 * B)):
         be = rng.choice(['np', 'np', 'torch'])
         do(ctx, 'map_history', [be, rng.randint(1, 4), rng.randrange(10 ** 6), rng.randint(4, 14)], nontrivial=(be, 'h', ctx.res.evaluations))
